@@ -44,6 +44,9 @@ MUTANTS = [
  {"id": "stripform-benign", "kind": "benign", "edits": [{"patch": "/verif/benign/distinfo-3/patch.diff"}]},
  {"id": "counted-start-one-past-end", "kind": "break", "edits": [{"patch": "/verif/benign/m-distinfo-2/patch.diff"}, ("src/distinfo.rs", ".unwrap_or(line.len());\n            let line = &line[start..];", ".unwrap_or(line.len());\n            let line = &line[start + 1..];")], "expect": ["PANIC@distinfo::Line::from_bytes#call:index"]},
  {"id": "counted-start-default-past-end", "kind": "break", "edits": [{"patch": "/verif/benign/m-distinfo-2/patch.diff"}, ("src/distinfo.rs", ".unwrap_or(line.len());\n            let line = &line[start..];", ".unwrap_or(line.len() + 1);\n            let line = &line[start..];")], "expect": ["PANIC@distinfo::Line::from_bytes#call:index"]},
+ {"id": "counter-form-benign", "kind": "benign", "edits": [{"patch": "/verif/benign/m-pattern-1/patch.diff"}]},
+ {"id": "helper-form-benign", "kind": "benign", "edits": [{"patch": "/verif/benign/pattern-1/patch.diff"}]},
+ {"id": "counter-decrement-unguarded", "kind": "break", "edits": [{"patch": "/verif/benign/m-pattern-1/patch.diff"}, ("src/pattern.rs", "                    '}' if depth == 0 => return Err(PatternError::Alternate),\n", "")], "expect": ["PANIC@pattern::Pattern::new#assert:Overflow(Sub)"]},
  {"id": "probe-panic-division-by-len", "kind": "break", "edits": [(S, "        let slen = input_string.len();", "        let slen = input_string.len();\n        let _avg = slen / self.entries.len();")], "expect": ["PANIC"]},
  {"id": "probe-panic-remove-first-entry", "kind": "break", "edits": [(L, "        Ok(plist)\n    }\n\n    /**\n     * Return the package name as specified", "        if plist.entries.len() > 1000000 {\n            plist.entries.remove(0);\n        }\n        Ok(plist)\n    }\n\n    /**\n     * Return the package name as specified")], "expect": []},
 ]
